@@ -21,6 +21,15 @@ def gen() -> gens.Gen:
     return _GEN
 
 
+def sibling_ibans(cc, bban, limit=6):
+    """(country, valid IBAN text) for the other countries under which this BBAN text is structurally valid: the same BBAN
+    text under a different country must be judged by that country's rules, whatever was seen before."""
+    from ..dims import sibling_countries
+    from ..oracles.core import canonical_digits
+    o = oracle()
+    return [(y, y + canonical_digits(y, bban) + bban) for y in sibling_countries(o, cc, bban)[:limit]]
+
+
 def char_cat(ch):
     if ch in ALNUM:
         return "alnum"
